@@ -20,6 +20,7 @@ import (
 	"github.com/internetarchive/Zeno/internal/pkg/log"
 	"github.com/internetarchive/Zeno/internal/pkg/postprocessor/domainscrawl"
 	"github.com/internetarchive/Zeno/internal/pkg/stats"
+	"github.com/internetarchive/Zeno/internal/pkg/verifhook"
 	"github.com/internetarchive/Zeno/pkg/models"
 )
 
@@ -102,8 +103,10 @@ func Start(inputChan, outputChan chan *models.Item) error {
 // Stop stops the archiver routines and the WARC writer
 func Stop() {
 	if globalArchiver != nil {
+		verifhook.At("arch.stop.enter")
 		globalArchiver.cancel()
 		globalArchiver.wg.Wait()
+		verifhook.At("arch.stop.workers-done")
 
 		// Wait for the WARC writing to finish
 		stopLocalWatcher := make(chan struct{})
@@ -119,6 +122,7 @@ func Stop() {
 		}()
 		globalArchiver.Client.WaitGroup.Wait()
 		stopLocalWatcher <- struct{}{}
+		verifhook.At("arch.stop.warc-idle")
 		logger.Debug("WARC writing finished")
 		globalArchiver.Client.Close()
 		if globalArchiver.ClientWithProxy != nil {
@@ -126,6 +130,7 @@ func Stop() {
 			globalArchiver.ClientWithProxy.Close()
 		}
 
+		verifhook.Obs("arch.stop.closed")
 		logger.Info("stopped")
 	}
 	if globalBucketManager != nil {
@@ -155,14 +160,18 @@ func (a *archiver) worker(workerID string) {
 	for {
 		select {
 		case <-a.ctx.Done():
+			verifhook.Obs("arch.exit", workerID)
 			logger.Debug("shutting down")
 			return
 		case <-controlChans.PauseCh:
+			verifhook.At("arch.pause.ack", workerID)
 			logger.Debug("received pause event")
 			controlChans.ResumeCh <- struct{}{}
+			verifhook.At("arch.resumed", workerID)
 			logger.Debug("received resume event")
 		case seed, ok := <-a.inputCh:
 			if ok {
+				verifhook.At("arch.recv", seed)
 				logger.Debug("received seed", "seed", seed.GetShortID(), "depth", seed.GetDepth(), "hops", seed.GetURL().GetHops())
 
 				if err := seed.CheckConsistency(); err != nil {
@@ -175,11 +184,14 @@ func (a *archiver) worker(workerID string) {
 					archive(workerID, seed)
 				}
 
+				verifhook.At("arch.send", seed)
 				select {
 				case <-a.ctx.Done():
+					verifhook.Obs("arch.abort", seed)
 					logger.Debug("aborting seed due to stop", "seed", seed.GetShortID(), "depth", seed.GetDepth(), "hops", seed.GetURL().GetHops())
 					return
 				case a.outputCh <- seed:
+					verifhook.Obs("arch.sent", seed)
 				}
 			}
 		}
@@ -209,6 +221,7 @@ func archive(workerID string, seed *models.Item) {
 			continue
 		}
 
+		verifhook.At("arch.spawn", seed, items[i])
 		guard <- struct{}{}
 
 		wg.Add(1)
@@ -216,6 +229,7 @@ func archive(workerID string, seed *models.Item) {
 			defer wg.Done()
 			defer func() { <-guard }()
 			defer stats.URLsCrawledIncr()
+			verifhook.At("fetch.begin", seed, item)
 
 			var (
 				err          error
@@ -232,6 +246,7 @@ func archive(workerID string, seed *models.Item) {
 			// Wait for the rate limiter if enabled
 			if globalBucketManager != nil {
 				elapsed := globalBucketManager.Wait(req.URL.Host)
+				verifhook.At("fetch.limiter.done", seed, item, elapsed)
 				logger.Debug("got token from bucket", "seed_id", seed.GetShortID(), "item_id", item.GetShortID(), "depth", item.GetDepth(), "hops", item.GetURL().GetHops(), "elapsed", elapsed)
 			}
 
@@ -241,6 +256,7 @@ func archive(workerID string, seed *models.Item) {
 			for retry := 0; retry <= config.Get().MaxRetry; retry++ {
 				// This is unused unless there is an error
 				retrySleepTime := time.Second * time.Duration(retry*2)
+				verifhook.At("fetch.attempt", seed, item, retry)
 
 				// Get and measure request time
 				getStartTime := time.Now()
@@ -260,9 +276,11 @@ func archive(workerID string, seed *models.Item) {
 				}
 
 				resp, err = client.Do(req)
+				verifhook.At("fetch.response", seed, item, retry, resp, err)
 				if err != nil {
 					if retry < config.Get().MaxRetry {
 						logger.Warn("retrying request", "err", err.Error(), "seed_id", seed.GetShortID(), "item_id", item.GetShortID(), "depth", item.GetDepth(), "hops", item.GetURL().GetHops(), "retry", retry, "sleep_time", retrySleepTime.String())
+						verifhook.Obs("fetch.retry.sleep", seed, item, retry, retrySleepTime)
 						time.Sleep(retrySleepTime)
 						continue
 					}
@@ -270,6 +288,7 @@ func archive(workerID string, seed *models.Item) {
 					// retries exhausted
 					logger.Error("unable to execute request", "err", err.Error(), "seed_id", seed.GetShortID(), "item_id", item.GetShortID(), "depth", item.GetDepth(), "hops", item.GetURL().GetHops())
 					item.SetStatus(models.ItemFailed)
+					verifhook.Obs("fetch.failed", seed, item, "error")
 					return
 				}
 
@@ -288,6 +307,7 @@ func archive(workerID string, seed *models.Item) {
 				isDiscardedChallengePage := discarded && reasoncode.IsChallengePage(discardReason)
 				if isBadStatusCode || isDiscardedChallengePage {
 					if globalBucketManager != nil {
+						verifhook.Obs("fetch.limiter.failure", seed, item, req.URL.Host, resp.StatusCode)
 						globalBucketManager.AdjustOnFailure(req.URL.Host, resp.StatusCode)
 					}
 
@@ -303,11 +323,13 @@ func archive(workerID string, seed *models.Item) {
 						io.Copy(io.Discard, resp.Body)
 						resp.Body.Close()
 
+						verifhook.Obs("fetch.retry.sleep", seed, item, retry, retrySleepTime)
 						time.Sleep(retrySleepTime)
 						continue
 					} else {
 						logger.Error("retries exceeded", "reason", retryReason, "seed_id", seed.GetShortID(), "item_id", item.GetShortID(), "depth", item.GetDepth(), "hops", item.GetURL().GetHops(), "status_code", resp.StatusCode, "url", req.URL.String())
 						item.SetStatus(models.ItemFailed)
+						verifhook.Obs("fetch.failed", seed, item, "retries")
 
 						// Consume body, needed to avoid leaking RAM & storage
 						io.Copy(io.Discard, resp.Body)
@@ -317,6 +339,7 @@ func archive(workerID string, seed *models.Item) {
 					}
 				} else {
 					if globalBucketManager != nil {
+						verifhook.Obs("fetch.limiter.success", seed, item, req.URL.Host, resp.StatusCode)
 						globalBucketManager.OnSuccess(req.URL.Host)
 					}
 				}
@@ -335,28 +358,34 @@ func archive(workerID string, seed *models.Item) {
 			if err != nil {
 				logger.Error("unable to process body", "err", err.Error(), "item_id", item.GetShortID(), "seed_id", seed.GetShortID(), "depth", item.GetDepth(), "hops", item.GetURL().GetHops())
 				item.SetStatus(models.ItemFailed)
+				verifhook.Obs("fetch.failed", seed, item, "body")
 				return
 			}
 
+			verifhook.At("fetch.body", seed, item)
 			stats.MeanProcessBodyTimeAdd(time.Since(processStartTime))
 			stats.HTTPReturnCodesIncr(strconv.Itoa(resp.StatusCode))
 
 			// If WARC writing is asynchronous, we don't need to wait for the feedback channel
 			if !config.Get().WARCWriteAsync {
+				verifhook.At("fetch.feedback.wait", seed, item)
 				feedbackTime := time.Now()
 				// Waiting for WARC writing to finish
 				<-feedbackChan
+				verifhook.At("fetch.feedback.got", seed, item)
 				stats.MeanWaitOnFeedbackTimeAdd(time.Since(feedbackTime))
 			}
 
 			logger.Info("url archived", "url", item.GetURL().String(), "seed_id", seed.GetShortID(), "item_id", item.GetShortID(), "depth", item.GetDepth(), "hops", item.GetURL().GetHops(), "status", resp.StatusCode)
 
 			item.SetStatus(models.ItemArchived)
+			verifhook.Obs("fetch.archived", seed, item, resp)
 		}(items[i])
 	}
 
 	// Wait for all goroutines to finish
 	wg.Wait()
+	verifhook.At("arch.joined", seed)
 
 	return
 }
